@@ -87,6 +87,9 @@ Proof.
   inversion H; subst; led; lia.
 Qed.
 
+Ltac dchanged :=
+  match goal with |- context[if (t_cmp_none ?t || ?x) then _ else _] => destruct (t_cmp_none t || x) end.
+
 Definition balanced (d : dict) (l0 : ledger) (r : res) : Prop :=
   forall a, net (r_ledger r) a = net l0 a + occ (r_dict r) a - occ d a + oind (r_ret r) a.
 
@@ -144,7 +147,7 @@ Proof.
     + (* old value present *)
       cbv zeta.
       destruct (c_dictfail c); [simpl; led; lia|].
-      destruct (t_cmp_none t || negb (o =? value)).
+      dchanged.
       * destruct (run_post t) as [[|]|].
         -- destruct (has_notifiers t).
            ++ destruct (call_notifiers c t true o (if t_orig t then v else value)
@@ -168,7 +171,7 @@ Proof.
       destruct (run_post t) as [[|]|] eqn:RP.
       * cbv zeta.
         destruct (c_dictfail c); [simpl; led; rewrite ?L in *; led; lia|].
-        destruct (t_cmp_none t || negb (o =? value)).
+        dchanged.
         -- destruct (has_notifiers t).
            ++ destruct (call_notifiers c t true o (if t_orig t then v else value)
                           (l_store (store d n o) n (if t_orig t then v else value) (l_store d n o l2)))
@@ -180,7 +183,7 @@ Proof.
       * simpl; led; rewrite ?L in *; led; lia.
       * cbv zeta.
         destruct (c_dictfail c); [simpl; led; rewrite ?L in *; led; lia|].
-        destruct (t_cmp_none t || negb (o =? value)).
+        dchanged.
         -- destruct (has_notifiers t).
            ++ destruct (call_notifiers c t true o (if t_orig t then v else value)
                           (l_store (store d n o) n (if t_orig t then v else value) (l_store d n o l2)))
@@ -212,7 +215,7 @@ Proof.
   pose proof (getattr_trait_balanced c t (remove d n) n (l_remove d n (inc o [])) a) as G.
   destruct (getattr_trait c t (remove d n) n (l_remove d n (inc o []))) as [gd go gk gl gr]. simpl in G.
   simpl. destruct gr as [value|].
-  - destruct (t_cmp_none t || negb (o =? value)).
+  - dchanged.
     + destruct (run_post t) as [[|]|].
       * destruct (call_notifiers c t true o value gl) as [[ok k] l3] eqn:N.
         pose proof (call_notifiers_ledger _ _ _ _ _ _ _ _ _ a N) as HN.
@@ -292,7 +295,7 @@ Proof.
       destruct ((match run_post t with Some _ => true | None => false end) || has_notifiers t).
       * destruct (lookup d n) as [o|].
         -- cbv zeta. destruct (c_dictfail c); simpl; try discriminate.
-           destruct (t_cmp_none t || negb (o =? value)); simpl; try discriminate.
+           dchanged; simpl; try discriminate.
            destruct (run_post t) as [[|]|]; simpl; try discriminate;
              (destruct (has_notifiers t); simpl; try discriminate;
               match goal with |- context[call_notifiers ?a ?b ?c ?d ?e ?f] =>
@@ -300,7 +303,7 @@ Proof.
         -- destruct (default_value_for t l1) as [[[o|] e2] l2]; simpl; try discriminate.
            destruct (run_post t) as [[|]|]; simpl; try discriminate;
              (cbv zeta; destruct (c_dictfail c); simpl; try discriminate;
-              destruct (t_cmp_none t || negb (o =? value)); simpl; try discriminate;
+              dchanged; simpl; try discriminate;
               destruct (has_notifiers t); simpl; try discriminate;
               match goal with |- context[call_notifiers ?a ?b ?c ?d ?e ?f] =>
                 destruct (call_notifiers a b c d e f) as [[[|] k] l4] end; simpl; discriminate).
@@ -326,7 +329,7 @@ Proof.
     destruct (has_notifiers t); simpl; try discriminate.
     pose proof (getattr_trait_no_crash c t (remove d n) n (l_remove d n (inc o []))) as G.
     destruct (getattr_trait c t (remove d n) n (l_remove d n (inc o []))) as [gd go gk gl [value|]]; simpl in *.
-    + destruct (t_cmp_none t || negb (o =? value)); simpl; try discriminate.
+    + dchanged; simpl; try discriminate.
       destruct (run_post t) as [[|]|]; simpl; try discriminate;
         (destruct (call_notifiers c t true o value gl) as [[[|] k] l3]; simpl; discriminate).
     + exact G.
